@@ -383,7 +383,28 @@ func TestParseAgainstStdlib(t *testing.T) {
 		checkParse(t, "TestParseAgainstStdlib", s)
 	}
 	rapid.Check(t, func(t *rapid.T) {
-		checkParse(t, "TestParseAgainstStdlib", genDurString().Draw(t, "s"))
+		s := genDurString().Draw(t, "s")
+		checkParse(t, "TestParseAgainstStdlib", s)
+		// the parser is a pure function: texts that were parsed a moment ago must not influence it. A family of
+		// near-identical texts is parsed in a row - the text padded to a boundary length with whole terms, then
+		// variants that share all but the last byte(s)
+		if rapid.IntRange(0, 3).Draw(t, "family") == 2 {
+			want := rapid.SampledFrom([]int{15, 16, 17, 31, 32, 33, 39, 40, 41, 63, 64, 65, 127, 128, 129, 255, 256, 257}).Draw(t, "familyLen")
+			base := s
+			for len(base)+2 <= want {
+				base += "1h"
+			}
+			for len(base) < want {
+				base = "0" + base
+			}
+			checkParse(t, "TestParseAgainstStdlib", base)
+			if len(base) > 0 {
+				for _, tail := range []string{"m", "s", "x", "\x00", "9", "", "hh"} {
+					checkParse(t, "TestParseAgainstStdlib", base[:len(base)-1]+tail)
+				}
+				checkParse(t, "TestParseAgainstStdlib", base)
+			}
+		}
 	})
 }
 
